@@ -123,6 +123,7 @@ def run_one_path(env, con, fn, ctx):
     frame.cls = env.owner_class(fn)
     frame.locals.update(args)
     it.entry_args = {k: snapshot(v) for k, v in args.items()}
+    ctx.entry_args = it.entry_args
     selfobj = args.get("self")
     it.old_self = ObjSnapshot(selfobj) if isinstance(selfobj, SObj) else None
     if con.yielded_sort is not None:
